@@ -90,7 +90,7 @@ NoCrash == [gate |-> "", occ |-> 0, when |-> ""]
 NoPlan == [faults |-> <<>>, crash |-> NoCrash]
 NdInit == [up |-> TRUE, epoch |-> 1, mem |-> <<>>, reg |-> {}, disk |-> <<>>, timers |-> {}, notif |-> {}, wconf |-> {}, wcsv |-> {},
            senders |-> {}, spentout |-> {}, suspfile |-> FALSE, sentn |-> <<>>, nsteps |-> 0, nfaults |-> 0, ncrashes |-> 0,
-           nswaps |-> 0, opens |-> <<>>, q |-> <<>>, peerinv |-> <<>>, keyn |-> 0, ptx |-> 0, ptxs |-> <<>>, ver |-> "current", unrecovered |-> FALSE, tipadd |-> 0, phase |-> "idle", poll |-> FALSE,
+           nswaps |-> 0, opens |-> <<>>, q |-> <<>>, peerinv |-> <<>>, keyn |-> 0, ptx |-> 0, ptxs |-> <<>>, ver |-> "current", unrecovered |-> FALSE, tipadd |-> 0, lastplan |-> NoPlan, phase |-> "idle", poll |-> FALSE,
            occ |-> <<>>, plan |-> NoPlan, res |-> "ok", recover |-> FALSE, nrestarts |-> 0, a |-> ""]
 
 Ctx(n, plan) == [nd |-> n, evs |-> <<>>, occ |-> <<>>, plan |-> plan, crashed |-> FALSE, go |-> "", sid |-> "none", out |-> "", res |-> "ok", done |-> FALSE]
@@ -662,7 +662,7 @@ Commit(x, pre, a, plan, sch) ==
   LET y == Settle(x)
       f == Fold(o, viol, pre \o y.evs)
   IN /\ o' = f.o /\ viol' = f.v
-     /\ nd' = [y.nd EXCEPT !.phase = "drain", !.occ = y.occ, !.plan = plan, !.res = y.res, !.a = a, !.nsteps = @ + 1,
+     /\ nd' = [y.nd EXCEPT !.phase = "drain", !.lastplan = NoPlan, !.occ = y.occ, !.plan = plan, !.res = y.res, !.a = a, !.nsteps = @ + 1,
                            !.nfaults = @ + (IF plan.faults # <<>> THEN 1 ELSE 0), !.ncrashes = @ + (IF plan.crash.gate # "" THEN 1 ELSE 0)]
      /\ sched' = Append(sched, sch) /\ UNCHANGED cf
 
@@ -795,7 +795,9 @@ Drain ==
      IN \* a plan that is never reached is pruned - except failing services during recovery: a change of the code may add service calls to a recovery path
         /\ PlanHit(nd.plan, x2.occ) \/ nd.plan = NoPlan \/ (nd.a \in {"restart", "recover"} /\ nd.plan.crash.gate = "")
         /\ o' = f.o /\ viol' = f.v
-        /\ nd' = [x2.nd EXCEPT !.phase = "idle", !.tipadd = 0, !.poll = FALSE, !.recover = FALSE, !.occ = <<>>, !.plan = NoPlan, !.res = "ok", !.q = <<>>]
+        /\ nd' = [x2.nd EXCEPT !.phase = "idle", !.tipadd = 0, !.poll = FALSE,
+                               \* (kept in the view: recovery under each failing service is a behaviour of its own even if today's code never calls that service there)
+                               !.lastplan = IF nd.a \in {"restart", "recover"} THEN nd.plan ELSE NoPlan, !.recover = FALSE, !.occ = <<>>, !.plan = NoPlan, !.res = "ok", !.q = <<>>]
         /\ UNCHANGED <<sched, cf>>
 
 Init == /\ cf \in CONFIGS /\ o = ApplyEv(ObsInit, [ev |-> "reset", cfg |-> Cfg]) /\ viol = {} /\ nd = [NdInit EXCEPT !.ver = cf.ver] /\ sched = <<>>
